@@ -33,7 +33,12 @@ def run(seed):
             r = subprocess.run([os.path.join(V, "check"), pid, "--tier", opts.get("tier", "quick")], capture_output=True, text=True, env=env, cwd=V)
             vio = [l for l in r.stdout.splitlines() if l.startswith("VIOLATION")]
             repro = [l for l in vio if not l.endswith("no-failing-input-found")]
-            out.append("%s %s: exit=%d violations=%d replayed=%d %s" % (seed, pid, r.returncode, len(vio), len(repro), (vio[0][:230] if vio else r.stdout.strip().splitlines()[-1][:200] if r.stdout.strip() else r.stderr[-300:])))
+            verdict = ""
+            if meta.get("kind") == "harmless-refactoring":
+                verdict = "[harmless: %s] " % ("FALSE ALARM" if vio or r.returncode == 1 else ("no alarm" if r.returncode == 0 else "undecided (exit %d)" % r.returncode))
+            else:
+                verdict = "[breaking: %s] " % ("reported" if vio else ("MISSED" if r.returncode == 0 else "undecided (exit %d)" % r.returncode))
+            out.append("%s %s: %sexit=%d violations=%d replayed=%d %s" % (seed, pid, verdict, r.returncode, len(vio), len(repro), (vio[0][:230] if vio else r.stdout.strip().splitlines()[-1][:200] if r.stdout.strip() else r.stderr[-300:])))
     finally:
         shutil.rmtree(d, ignore_errors=True)
     return "\n".join(out)
